@@ -48,7 +48,15 @@ func c13Sentinel(s string) error {
 	if e, ok := c13Sentinels[s]; ok {
 		return e
 	}
-	e := errors.New(s)
+	var e error
+	switch s {
+	case "context canceled": // the library sentinels a change might single out
+		e = context.Canceled
+	case "context deadline exceeded":
+		e = context.DeadlineExceeded
+	default:
+		e = errors.New(s)
+	}
 	c13Sentinels[s] = e
 	return e
 }
@@ -501,7 +509,7 @@ func (g *c13Group) onPoisonPublish(call int, topic string, msgs []*message.Messa
 		c.rec("ppublish-n", len(msgs))
 		return nil
 	}
-	c.rec("ppublish", g.in.ID(topic), g.snap(msgs[0]), script.Settlement(c.msg))
+	c.rec("ppublish", g.in.ID(topic), g.snap(msgs[0]), script.Settlement(c.msg), msgs[0] == c.msg)
 	g.arrive(c, true)
 	switch c.ppub {
 	case 0:
@@ -831,6 +839,7 @@ var c13Errs = []*errSpec{
 	emulti(eb("A"), eb("B")), emulti(eb("B")), emulti(),
 	estd("w", emulti(eb("B"), eb("A"))), ecause("c", eb("B")), emulti(ecause("c", eb("A"))),
 	ecause("c2", ecause("c1", eb("A"))), estd("", eb("A")),
+	eb("context canceled"), estd("handler interrupted", eb("context canceled")), ecause("timeout", eb("context deadline exceeded")),
 }
 
 var c13Filters = []*fSpec{
